@@ -903,3 +903,59 @@ def flat_view(module_tree, rel, fn, cls_name=None, depth=2):
         out.body = list(out.body) + extra
         ast.fix_missing_locations(out)
     return out
+
+
+# ---------------------------------------------------------------------------
+# canonical statement forms
+# ---------------------------------------------------------------------------
+_CTOR_PARAMS = ['data', 'observation_ids', 'sample_ids',
+                'observation_metadata', 'sample_metadata']
+
+
+class _Canon(ast.NodeTransformer):
+    """`x = a if c else b` is read as `if c: x = a  else: x = b`; the first
+    five arguments of a Table constructor call are read positionally
+    whether they are written positionally or by keyword."""
+
+    def visit_Assign(self, node):
+        self.generic_visit(node)
+        if isinstance(node.value, ast.IfExp) and len(node.targets) == 1 and \
+                isinstance(node.targets[0], (ast.Name, ast.Attribute)):
+            t = node.targets[0]
+            new = ast.If(
+                test=node.value.test,
+                body=[ast.copy_location(ast.Assign(
+                    targets=[copy.deepcopy(t)], value=node.value.body),
+                    node)],
+                orelse=[ast.copy_location(ast.Assign(
+                    targets=[copy.deepcopy(t)], value=node.value.orelse),
+                    node)])
+            return ast.copy_location(new, node)
+        return node
+
+    def visit_Call(self, node):
+        self.generic_visit(node)
+        f = node.func
+        is_ctor = (isinstance(f, ast.Name) and f.id in ('Table', 'cls')) or \
+            (isinstance(f, ast.Attribute) and f.attr == '__class__')
+        if is_ctor and node.keywords and not any(
+                isinstance(a, ast.Starred) for a in node.args) and \
+                not any(k.arg is None for k in node.keywords):
+            kw = {k.arg: k for k in node.keywords}
+            args = list(node.args)
+            moved = []
+            while len(args) < len(_CTOR_PARAMS) and \
+                    _CTOR_PARAMS[len(args)] in kw:
+                k = kw[_CTOR_PARAMS[len(args)]]
+                args.append(k.value)
+                moved.append(k)
+            if moved:
+                node.args = args
+                node.keywords = [k for k in node.keywords if k not in moved]
+        return node
+
+
+def canonical_forms(tree):
+    new = _Canon().visit(tree)
+    ast.fix_missing_locations(new)
+    return new
